@@ -49,7 +49,7 @@ def gen_cases(rng, tier):
     # long runs: more samples in a single voxel than 16-bit (and, per axis sum, than a few 16-bit words) can count
     for _k in range({'quick': 2, 'thorough': 6, 'search': 1}[tier]):
         m = synth.int_lattice(rng, rng.choice(KINDS))
-        frames = rng.choice([66000, 70000, 131100])
+        frames = rng.choice([66000, 70000, 131100]) if _k > 0 else 520000        # the first one exceeds a million samples (2 atoms)
         pts = [[rng.randint(0, DEN - 1) for _ in range(3)] for _ in range(4)]
         cases.append({'m': m, 'res': rng.choice([1.0, 1.5]), 'long': {'frames': frames, 'static': pts[0], 'cycle': pts[1:]}, 'coords': []})
     return cases
@@ -77,7 +77,7 @@ def impl(case):
     changed = guard.changed()
     pos = np.array(traj.positions).reshape(-1, 3)
     out = {'lengths': lengths, 'res': res, 'dims': [int(d) for d in vol.dims], 'data': vol.data.ravel().tolist(),
-           'pos': (pos * DEN).tolist(), 'f2v': [vol.frac_coords_to_voxel(p).tolist() for p in pos[:6]],
+           'pos': (pos * DEN).tolist() if 'long' not in case else (pos[:6] * DEN).tolist(), 'f2v': [vol.frac_coords_to_voxel(p).tolist() for p in pos[:6]],
            'vsize': [float(v) for v in vol.voxel_size]}
     v2f = []
     rt_bad = None
@@ -113,6 +113,18 @@ def oracle(case, out):
     fs = synth.inputs_clause(out, 'trajectory_to_volume')
     dims = out['dims']
     data = np.array(out['data']).reshape(dims)
+    if 'long' in case:
+        # long runs: expected counts computed vectorised from the case (the positions are exact multiples of 1/4096 inside the cell)
+        allpos = np.rint(_coords(case).reshape(-1, 3) * DEN).astype(np.int64)
+        idx = (allpos * np.array(dims, dtype=np.int64)) // DEN
+        want = np.zeros(dims, dtype=np.int64)
+        np.add.at(want, (idx[:, 0], idx[:, 1], idx[:, 2]), 1)
+        if int(data.sum()) != len(allpos):
+            fs.append(('volume/sum', f'voxel sum {int(data.sum())} != frames x atoms {len(allpos)}'))
+        if not np.array_equal(want, data):
+            w = tuple(int(v) for v in np.argwhere(want != data)[0])
+            fs.append(('volume/not-floor-voxel', f'grid {dims}: voxel {w} holds {int(data[w])} samples, {int(want[w])} positions have floor(frac x grid size) there'))
+        return fs
     pos = np.rint(np.array(out['pos'])).astype(np.int64)
     if data.sum() != len(pos):
         fs.append(('volume/sum', f'voxel sum {int(data.sum())} != frames x atoms {len(pos)}'))
